@@ -170,7 +170,50 @@ def scenarios(ctx):
     return scs
 
 
+def run_per_fragment(ctx):
+    """on_cont_message set (per-fragment delivery): whether it is handed to the constructor or assigned afterwards, every
+    fragment is dispatched on its own — first fragment: on_data(data, opcode, True) + on_message(data); each continuation:
+    on_data(data, 0, fin) + on_cont_message(data, fin) — and when it has been removed again before the run, whole messages
+    are. Real runs + this oracle (the application model has no on_cont_message)."""
+    scs = []
+    msgs = [("T", b"abcd"), ("B", b"\x00\x01\x02\x03"), ("t", b"hi"), ("T", b"wxyz12")]
+    for mode in ("init", "late", "removed"):
+        for order in ([0, 1, 2], [2, 0, 3], [1, 1], [3]):
+            for ssl_ in (False, True):
+                evs = [[100, 0, msgs[i][0], msgs[i][1].hex()] for i in order] + [[50, 0, "c", "03e8"]]
+                scs.append({"cbs": appsim.ALL, "ssl": ssl_, "runs": [[["E", evs]]], "horizon": 30 * TPS, "cont_cb": mode,
+                            "kind": "per-fragment", "tag": f"cont:{mode}:{'-'.join(map(str, order))}"})
+    # an ill-formed text message (FF) while per-fragment delivery is on: it is not handed to on_message / on_data
+    for mode in ("init", "late"):
+        scs.append({"cbs": appsim.ALL, "ssl": False, "runs": [[["E", [[100, 0, "t", "6f6b"], [100, 0, "y", ""], [100, 0, "t", "6e6f"]]]]],
+                    "horizon": 30 * TPS, "cont_cb": mode, "kind": "per-fragment", "tag": f"cont:{mode}:ill-formed"})
+    for sc, r in zip(scs, appcheck.run_real_many(scs)):
+        got = [it.partition(":")[2] for it in (r["trace"].split(";") if r["trace"] else [])
+               if it.partition(":")[2].startswith(("cb:on_data", "cb:on_message", "cb:on_cont_message"))]
+        ctx.case(key=("cont", sc["tag"], sc["ssl"]), nontrivial=True, cls="per-fragment:" + sc["tag"].split(":")[1])
+        if sc["tag"].endswith("ill-formed"):
+            bad = [g for g in got if "ff" in g.split(":", 2)[2].lower() or "efbfbd" in g.lower()]
+            if bad or len(got) != 2:
+                ctx.violate("delivery", "ill-formed-text-delivered@per-fragment-delivery", sc, "only the message before it is delivered",
+                            str(got), size=6)
+            continue
+        want = []
+        for i in [int(x) for x in sc["tag"].split(":")[2].split("-")]:
+            k, p = msgs[i]
+            op = 1 if k in "tT" else 2
+            arg = lambda b, o=op: appsim.arg_out(b.decode() if o == 1 else b)
+            if k in "tb" or sc["cont_cb"] == "removed":
+                want += [f"cb:on_data:{arg(p)},i{op},T", f"cb:on_message:{arg(p)}"]
+            else:
+                a, b = p[:len(p) // 2], p[len(p) // 2:]
+                want += [f"cb:on_data:{arg(a)},i{op},T", f"cb:on_message:{arg(a)}",
+                         f"cb:on_data:{appsim.arg_out(b)},i0,i1", f"cb:on_cont_message:{appsim.arg_out(b)},i1"]
+        if got != want:
+            ctx.violate("delivery", "per-fragment-delivery-does-not-follow-on_cont_message", sc, str(want)[:400], str(got)[:400], size=len(want))
+
+
 def run(ctx):
+    run_per_fragment(ctx)
     ctx.rule = ("every history over {t,b,T,B,p,q,burst} up to length 4 (thorough 5) x "
                 "{silence, eof} x {plain, TLS-style}; all 256 callback subsets; each callback raising at each "
                 "invocation; first fragment alone; reconnecting runs (2-4 connections) with and without on_reconnect / on_open; random histories to length 20 "
@@ -178,7 +221,11 @@ def run(ctx):
     corp = [d["input"] for d in appcheck.corpus("C13")]
     if corp:
         appcheck.evaluate(ctx, "C13", corp, exact_of=exact_of, cls_of=lambda sc: "corpus", extra_check=extra)
-    appcheck.evaluate(ctx, "C13", scenarios(ctx), exact_of=exact_of, cls_of=cls_of, extra_check=extra)
+    scs = scenarios(ctx)
+    for i, sc in enumerate(scs):
+        if i % 4 == 1:
+            sc["trace"] = True          # every fourth scenario with websocket.enableTrace(True): logging is not behaviour
+    appcheck.evaluate(ctx, "C13", scs, exact_of=exact_of, cls_of=cls_of, extra_check=extra)
 
 
 def search(ctx):
